@@ -307,6 +307,9 @@ func (c *c14Case) render() string {
 				}
 				parts = append(parts, s)
 			}
+			if len(parts) == 0 {
+				parts = []string{"%empty"}
+			}
 			sb.WriteString(strings.Join(parts, " ") + "\n")
 		}
 		sb.WriteString(";\n\n")
@@ -636,7 +639,7 @@ func c14Check(c c14Case, r *ev.Recorder) *Failure {
 func TestC14(t *testing.T) {
 	p := &prop[c14Case]{
 		ID:   "C14",
-		Rule: "templated grammars: 1..3 global %flag parameters (default true/false/none), 0..2 %lookahead flags, 2..5 nonterminals declaring subsets of the globals and inline `flag X [= default]` parameters (names X/Y reused across nonterminals so that name-based propagation happens), alternatives with predicates in disjunctive form over p, !p, p == lit, p != lit (&& binds tighter than ||), references with any mix of +P, ~P, P: true/false, P: Q, bare P (propagate) and omitted arguments, optional references, recursion; in a third of the cases 1..4 parts `set(X<args>)`, `set(first X<args>)`, `set(last X<args>)` with literal arguments (often two of them over the same nonterminal with different arguments), evaluated by the interpreter as least fixpoints over the instantiated rules; one unparametrized input, declared no-eoi in two ninths of the cases (the compiled grammar must list the declared inputs with their end-of-input mode). Compiled with compiler.Compile (kept when accepted or only LALR conflicts are reported). An independent interpreter instantiates (nonterminal, valuation) pairs from the inputs — omitted argument: same-named parameter of the caller, else the default; lookahead flags: explicit value, else inherited by the leftmost reference of an alternative, else false — and the set of terminal strings of length <= 5 of every input must equal the one of grammar.Parser.Rules. Non-trivial: some nonterminal instantiated with >= 2 valuations and >= 2 strings in an input; distinct by case JSON.",
+		Rule: "templated grammars: 1..3 global %flag parameters (default true/false/none), 0..2 %lookahead flags, 2..5 nonterminals declaring subsets of the globals and inline `flag X [= default]` parameters (names X/Y reused across nonterminals so that name-based propagation happens), alternatives with predicates in disjunctive form over p, !p, p == lit, p != lit (&& binds tighter than ||), references with any mix of +P, ~P, P: true/false, P: Q, bare P (propagate) and omitted arguments, optional references, recursion, explicit `%empty` alternatives (in grammars without lookahead flags); in a third of the cases 1..4 parts `set(X<args>)`, `set(first X<args>)`, `set(last X<args>)` with literal arguments (often two of them over the same nonterminal with different arguments), evaluated by the interpreter as least fixpoints over the instantiated rules; one unparametrized input, declared no-eoi in two ninths of the cases (the compiled grammar must list the declared inputs with their end-of-input mode). Compiled with compiler.Compile (kept when accepted or only LALR conflicts are reported). An independent interpreter instantiates (nonterminal, valuation) pairs from the inputs — omitted argument: same-named parameter of the caller, else the default; lookahead flags: explicit value, else inherited by the leftmost reference of an alternative, else false — and the set of terminal strings of length <= 5 of every input must equal the one of grammar.Parser.Rules. Non-trivial: some nonterminal instantiated with >= 2 valuations and >= 2 strings in an input; distinct by case JSON.",
 		Assume: []string{"an instance whose alternatives are all disabled has no agreed meaning (Textmapper makes it derive the empty string); such grammars are counted and skipped", "only whole-input languages are compared, not the individual instantiated nonterminals"},
 		Quick:  24000, Thorough: 1200000,
 		Gen:   c14Gen2,
